@@ -204,6 +204,21 @@ pub fn examine_texts(text_a: &str, text_b: &str, reference: Option<prog::RefRun>
         let (_, _, src) = a.origin.first_error.clone().unwrap();
         return Some(("closure-creation-folding-error".into(), "A".into(), format!("creating the function value failed with {} although its body is never run: {}", a.outcome.tag(), truncate(&src, 200))));
     }
+    // a program the generator builds well-typed, that the reference runs without any type confusion, and that the
+    // checker nevertheless refuses (hidden twin: no constant can fail while folding)
+    if let (Outcome::Rejected(v, None), Some(r)) = (&b.outcome, reference.as_ref()) {
+        if !matches!(r.outcome, RefOutcome::GiveUp(_)) {
+            if let Some(rep) = rep.as_deref_mut() {
+                rep.count(&format!("rejected-though-reference-ran:{v}"));
+            }
+            if let Ok(path) = std::env::var("VMON_DUMP_REJECTED") {
+                use std::io::Write;
+                if let Ok(mut f) = std::fs::OpenOptions::new().create(true).append(true).open(format!("{path}.ran")) {
+                    let _ = writeln!(f, "{v}\t{}", &text_b[crate::ast::PRELUDE.len().min(text_b.len())..].replace('\n', " "));
+                }
+            }
+        }
+    }
     if let Some(reference) = reference.as_ref().filter(|_| spec.ref_value || spec.ref_log) {
         for (which, run) in [("A", &a), ("B", &b)] {
             match compare_runs(run, reference, &judge) {
@@ -344,6 +359,17 @@ pub fn run(cfg: &Cfg, rep: &mut Report, spec: &Spec) {
         rep.sample(profile.name, 2, || Obj::new().s("profile", profile.name).s("program", &truncate(&text[crate::ast::PRELUDE.len()..], 700)).render());
         if spec.prop == "C12" && i % 3 == 0 {
             stray_exits(&body, i, rep);
+        }
+        if let Ok(path) = std::env::var("VMON_DUMP_REJECTED") {
+            // development aid: programs the generator believes well-typed but the checker refuses, shrunk
+            let t = prog::program_text(&body, Mode::Hidden);
+            if let Outcome::Rejected(v, _) = run_real(&t, FUEL).outcome {
+                let st = t.clone();
+                use std::io::Write;
+                if let Ok(mut f) = std::fs::OpenOptions::new().create(true).append(true).open(&path) {
+                    let _ = writeln!(f, "{v}\t{}\t{}", { let i = simplesl::Interpreter::with_stdlib(); simplesl::Code::parse(&i, &t).err().map(|e| e.to_string()).unwrap_or_default().replace('\n', " ") }, &st[crate::ast::PRELUDE.len()..].replace('\n', " "));
+                }
+            }
         }
         let Some((class, which, detail)) = examine(&body, spec, Some(rep)) else { continue };
         if reported >= 12 {
